@@ -75,6 +75,7 @@ type faultSrc struct {
 	countdown int
 	hit       bool
 	ops       int // operations seen
+	listed    []ocispec.Descriptor // the nodes whose predecessors were listed (Predecessors / Referrers), in call order
 }
 
 func (f *faultSrc) tick() error {
@@ -95,6 +96,7 @@ func (f *faultSrc) Fetch(ctx context.Context, d ocispec.Descriptor) (io.ReadClos
 	return f.ReadOnlyGraphStorage.Fetch(ctx, d)
 }
 func (f *faultSrc) Predecessors(ctx context.Context, d ocispec.Descriptor) ([]ocispec.Descriptor, error) {
+	f.listed = append(f.listed, d)
 	if err := f.tick(); err != nil {
 		return nil, err
 	}
@@ -105,6 +107,7 @@ func (f *faultSrc) Predecessors(ctx context.Context, d ocispec.Descriptor) ([]oc
 type faultLister struct{ *faultSrc }
 
 func (f faultLister) Referrers(ctx context.Context, d ocispec.Descriptor, at string, fn func([]ocispec.Descriptor) error) error {
+	f.listed = append(f.listed, d)
 	if err := f.tick(); err != nil {
 		return err
 	}
@@ -886,7 +889,12 @@ func runCase(spec *caseSpec) {
 			seen[rec.id(r)] = true
 		}
 		rootIDs = sortedKeys(seen)
-		obs = "OK " + idsString(rootIDs)
+		// ... and the sequence of nodes whose predecessors findRoots asked the source for
+		var calls []int
+		for _, d := range counter.listed {
+			calls = append(calls, rec.id(d))
+		}
+		obs = "OK " + idsString(rootIDs) + " " + idsString(calls)
 	}
 	line := fmt.Sprintf("FR %d %d %d %s %s %s %s", len(g.Nodes), spec.Limit, spec.Start, lister, ftok, ntok, rtok)
 	run.Case(id, line, obs)
@@ -952,8 +960,8 @@ func runCase(spec *caseSpec) {
 			run.OracleFail(eid, "spurious-error", fmt.Sprintf("findRoots failed although the armed fault (operation %d of %d) was not reached: %v", kk, counter.ops, ferr), spec)
 		case ferr == nil && fsrc.hit:
 			run.OracleFail(eid, "error-swallowed", fmt.Sprintf("operation %d of %d of findRoots failed, findRoots returned success with roots %s", kk, counter.ops, eobs), spec)
-		case ferr == nil && eobs != obs:
-			run.OracleFail(eid, "error-swallowed", fmt.Sprintf("with an armed (unreached) fault findRoots returned %s, without %s", eobs, obs), spec)
+		case ferr == nil && eobs != "OK "+idsString(rootIDs):
+			run.OracleFail(eid, "error-swallowed", fmt.Sprintf("with an armed (unreached) fault findRoots returned %s, without %s", eobs, "OK "+idsString(rootIDs)), spec)
 		case ferr != nil:
 			run.Count("findRoots-fault=error")
 		}
